@@ -5,11 +5,11 @@ CONSTANTS
   Denoms = {1, 2}
   Funds <- FundsSmall
   Amounts = {0, 1, 2}
-  Months = {1, 24}
+  Months = {0, 1, 24}
   SaleMonths = 24
   Unit = 1
   MonthTicks = 4
-  SaleChains = {1, 2}
+  SaleChains = {1, 2, 3}
   Contracts = {1, 2}
   MaxOps = 2
   EmitAt = 0
